@@ -42,10 +42,28 @@ def _mask_for(kind, shape, bits):
     return b.reshape(shape)
 
 
+REPRS = ["bool", "int", "uint8", "list", "listbool"]  # "valid boolean mask for MaskedArray": anything np.ma.make_mask takes
+
+
+def _repr(mask, rep):
+    m = np.asarray(mask, bool)
+    if rep == "int":
+        return m.astype(int)
+    if rep == "uint8":
+        return m.astype(np.uint8)
+    if rep == "list":
+        return m.astype(int).tolist()
+    if rep == "listbool":
+        return m.tolist()
+    return m
+
+
 def check_compress(case, ctx):
     from finam.data import tools
 
     shape, order, kind, quant, bits = tuple(case["shape"]), case["order"], case["mask"], case["quant"], case["bits"]
+    rep = case.get("repr", "bool")
+    ctx.event(f"mask-argument-as={rep}")
     n = int(np.prod(shape))
     vals = (np.arange(n, dtype=float) * 1.5 + 0.25).reshape(shape)
     mask = _mask_for(kind, shape, bits)
@@ -70,10 +88,10 @@ def check_compress(case, ctx):
     # explicit mask argument for plain data
     if kind != "nomask":
         plain = tools.UNITS.Quantity(vals.copy(), "m") if quant else vals.copy()
-        c2 = tools.to_compressed(plain, order=order, mask=np.asarray(mask))
+        c2 = tools.to_compressed(plain, order=order, mask=_repr(mask, rep))
         if not np.array_equal(np.ma.getdata(hs.magnitude(c2)), exp):
-            ctx.violation("to_compressed-maskarg", "to_compressed(plain, mask=...) differs from masked variant")
-    r = tools.from_compressed(c, shape, order=order, mask=mask)
+            ctx.violation("to_compressed-maskarg", f"to_compressed(plain, mask=<{rep}>) differs from masked variant")
+    r = tools.from_compressed(c, shape, order=order, mask=mask if kind == "nomask" else _repr(mask, rep))
     rm = hs.magnitude(r)
     if np.shape(rm) != shape:
         ctx.violation("from_compressed-shape", f"shape {np.shape(rm)} != {shape}")
@@ -91,7 +109,8 @@ def enum_compress(tier):
     shapes = [s for d in (1, 2, 3) for s in itertools.product((1, 2, 3, 4) if tier == "thorough" else (1, 2, 3), repeat=d)]
     for shape in shapes:
         for order, kind, quant in itertools.product("CF", ("nomask", "false", "partial", "full"), (False, True)):
-            yield {"shape": list(shape), "order": order, "mask": kind, "quant": quant, "bits": 0x5A5A3C3C96969}
+            for rep in (REPRS if kind == "partial" else ["bool"]):
+                yield {"shape": list(shape), "order": order, "mask": kind, "quant": quant, "bits": 0x5A5A3C3C96969, "repr": rep}
 
 
 compress_st = st.fixed_dictionaries({
@@ -100,6 +119,7 @@ compress_st = st.fixed_dictionaries({
     "mask": st.sampled_from(["partial", "partial", "random", "random", "false", "full", "nomask"]),
     "quant": st.booleans(),
     "bits": st.integers(0, 2**60 - 1),
+    "repr": st.sampled_from(["bool", "bool"] + REPRS),
 })
 
 
